@@ -78,6 +78,31 @@ def time_limit(seconds=5):
         signal.signal(signal.SIGALRM, old_real)
 
 
+_CONFIRMED_HANG = [False]
+
+
+def limited_call(fn, short=20, long=900):
+    """run fn() under the short CPU-time limit; a case that exceeds it is run again under the long limit before it counts
+    as non-termination (the library has inputs that legitimately need tens of seconds, e.g. XorEncoded detection on a file
+    whose first KiB is all ff: ~1000 nonce candidates x 1024 header probes through the decoding reader, measured 30-40 s
+    of CPU per detection and up to four detections per extraction, 150 s in all; the cost does not grow with the input
+    beyond that because the probe ranges are capped at 1024).
+    fn must be re-runnable.  After one confirmed non-termination further cases are judged by the short limit only (the
+    check is failing anyway; this keeps a non-terminating change from costing `long` seconds per case)."""
+    try:
+        with time_limit(short):
+            return fn()
+    except CaseTimeout:
+        if _CONFIRMED_HANG[0]:
+            raise
+    try:
+        with time_limit(long):
+            return fn()
+    except CaseTimeout:
+        _CONFIRMED_HANG[0] = True
+        raise
+
+
 def load_spec_module(name):
     """import contracts/spec/<name>.py by path (the directory is not put on sys.path: it has an http.py)"""
     import importlib.util
